@@ -468,9 +468,122 @@ let ioops_line (l : string) : string =
 
 let ioops_cases path = with_lines path (fun l -> print_endline (ioops_line l))
 
+
+(* ---------- C03: histories ---------- *)
+let prim_name = function
+  | PU8 -> "u8" | PI8 -> "i8" | PU16 -> "u16" | PI16 -> "i16" | PU32 -> "u32" | PI32 -> "i32"
+  | PU64 -> "u64" | PI64 -> "i64" | PU128 -> "u128" | PI128 -> "i128" | PF32 -> "f32" | PF64 -> "f64"
+  | PBool -> "bool" | PUnit -> "unit" | PChar -> "char" | PString -> "str" | PDedupString -> "dstr"
+  | PDuration -> "dur" | PBytes -> "bytes" | PUuid -> "uuid" | PBigInt -> "bigint"
+  | PBigDecimal -> "bigdec" | PWeekday -> "weekday" | PMonth -> "month" | PFixedOffset -> "fixedoffset"
+  | PTz -> "tz" | PDateTimeUtc -> "dt_utc" | PNaiveDate -> "ndate" | PNaiveTime -> "ntime"
+  | PNaiveDateTime -> "ndt" | PDateTimeLocal -> "dt_local" | PDateTimeFixed -> "dt_fixed" | PDateTimeTz -> "dt_tz"
+
+let rec show_ty (t : ty) : string =
+  match t with
+  | TPrim p -> prim_name p
+  | TOption t -> "(opt " ^ show_ty t ^ ")"
+  | TResult (a, b) -> "(res " ^ show_ty a ^ " " ^ show_ty b ^ ")"
+  | TTuple ts -> "(tup " ^ String.concat " " (List.map show_ty ts) ^ ")"
+  | TSeq (k, e) ->
+      (match k with
+       | KVec -> "(vec " | KSlice -> "(slice " | KLinkedList -> "(ll " | KHashSet -> "(hset "
+       | KBTreeSet -> "(bset " | KArray n -> "(arr " ^ string_of_n n ^ " ") ^ show_ty e ^ ")"
+  | TMap (k, a, b) -> (match k with KHashMap -> "(hmap " | KBTreeMap -> "(bmap ") ^ show_ty a ^ " " ^ show_ty b ^ ")"
+  | TWrap (w, t) -> (match w with KBox -> "(box " | KRc -> "(rc " | KArc -> "(arc " | KRef -> "(ref ") ^ show_ty t ^ ")"
+  | TPhantom -> "phantom"
+  | TNamed n -> "(named " ^ string_of_n n ^ ")"
+
+let show_field (f : field) : string =
+  Printf.sprintf "(f %s %s %s %s)" (hex f.f_name) (show_ty f.f_ty) (if f.f_opt then "1" else "0")
+    (match f.f_transient with None -> "-" | Some d -> print_raw d)
+let show_step = function
+  | SAdded (n, d) -> "(add " ^ hex n ^ " " ^ print_raw d ^ ")"
+  | SMadeOptional n -> "(opt " ^ hex n ^ ")"
+  | SRemoved n -> "(rem " ^ hex n ^ ")"
+  | SMadeTransient n -> "(tra " ^ hex n ^ ")"
+let show_rmeta (m : rmeta) : string =
+  "(" ^ String.concat " " (List.map show_field m.r_fields) ^ ") (" ^ String.concat " " (List.map show_step m.r_steps) ^ ")"
+let show_rec_env (nm : string) (m : rmeta) : string = "(env (rec " ^ nm ^ " " ^ show_rmeta m ^ "))"
+
+let field_of_sx (f : sx) : field =
+  match lst f with
+  | [_; Atom nm; t; Atom o; tr] ->
+      { f_name = name_of_hex nm; f_ty = ty_of_sx t; f_opt = (o = "1");
+        f_transient = (if tr = Atom "-" then None else Some (val_of_sx tr)) }
+  | _ -> failwith "bad field"
+
+let history_of_sx (s : sx) : history =
+  match lst s with
+  | [Atom "hist"; fs; hs] ->
+      { h_init = List.map field_of_sx (lst fs);
+        h_steps = List.map (fun h ->
+            match lst h with
+            | [Atom "add"; f; d] -> HAdd (field_of_sx f, val_of_sx d)
+            | [Atom "opt"; Atom nm] -> HOpt (name_of_hex nm)
+            | [Atom "rem"; Atom nm] -> HRem (name_of_hex nm)
+            | [Atom "tra"; Atom nm; d] -> HTra (name_of_hex nm, val_of_sx d)
+            | _ -> failwith "bad hstep") (lst hs) }
+  | _ -> failwith "bad history"
+
+type 'a res = Good of 'a | Bad of string
+
+(* hist H w r WRAP VAL SFX : WRAP is a type with (named 0) standing for the record *)
+let hist_line (l : string) : string =
+  match parse_all l with
+  | [Atom "hist"; h; Atom w; Atom r; wrap; v; Atom sfx] ->
+      let hh = history_of_sx h in
+      let w = int_of_string w and r = int_of_string r in
+      let mw = decl_at hh (nat_of_int w) and mr = decl_at hh (nat_of_int r) in
+      let ew = [{ d_name = [n_of_int 82]; d_body = DRecord mw }] in
+      let er = [{ d_name = [n_of_int 82]; d_body = DRecord mr }] in
+      let t = ty_of_sx wrap in
+      let v = val_of_sx v in
+      let fields_of = function VNode (_, vs) -> vs | _ -> [] in
+      (* the record value sits at a known place inside the wrapper: we only support wrappers
+         (named 0) | (tup u8 (named 0) str) | (vec (named 0)) and compute expected on records *)
+      let exp_rec (rv : val0) : val0 res =
+        match expected hh (nat_of_int w) (nat_of_int r) (fields_of rv) with
+        | Ok vs -> Good (VNode (N0, vs))
+        | Err e -> Bad ("err " ^ err_class e)
+        | Panic p -> Bad ("panic " ^ pkind_str p)
+        | Fuel -> Bad "fuel" in
+      let rec map_result f = function
+        | [] -> Good []
+        | x :: r -> (match f x with Bad e -> Bad e | Good y -> (match map_result f r with Bad e -> Bad e | Good ys -> Good (y :: ys))) in
+      let exp : val0 res =
+        match t, v with
+        | TNamed _, _ -> exp_rec v
+        | TTuple [_; TNamed _; _], VNode (tg, [a; rv; c]) ->
+            (match exp_rec rv with Good x -> Good (VNode (tg, [a; x; c])) | Bad e -> Bad e)
+        | TSeq (KVec, TNamed _), VNode (tg, rvs) ->
+            (match map_result exp_rec rvs with Good xs -> Good (VNode (tg, xs)) | Bad e -> Bad e)
+        | _ -> failwith "unsupported wrapper" in
+      let fuel = nat_of_int (64 + 2 * val_size v) in
+      let sfxb = unhex sfx in
+      let enc_res = enc fuel ew t v [] in
+      let model_dec, expected_str =
+        match enc_res with
+        | Ok (b, _) ->
+            cur_env := er;
+            let d = dec_model ~extra:(2 * val_size v + 64) t (b @ sfxb) in
+            let e = (match exp with
+                | Good x -> cur_env := er; "ok " ^ print_val er true t x
+                | Bad e -> e) in
+            (d, e)
+        | Err e -> ("enc-err " ^ err_class e, "enc-err " ^ err_class e)
+        | Panic p -> ("enc-panic " ^ pkind_str p, "enc-panic")
+        | Fuel -> ("enc-fuel", "enc-fuel") in
+      Printf.sprintf "%s ;; %s ;; %s ;; %s ;; legal=%b framed=%b" (show_rec_env "52" mw) (show_rec_env "52" mr)
+        expected_str model_dec (legal hh) (framed hh (nat_of_int w) (nat_of_int r))
+  | _ -> failwith "bad hist line"
+
+let hist_cases path = with_lines path (fun l -> print_endline (hist_line l))
+
 let () =
   match Array.to_list Sys.argv with
   | _ :: "varint-cases" :: path :: _ -> varint_cases path
   | _ :: "codec" :: path :: _ -> codec_cases path
   | _ :: "ioops" :: path :: _ -> ioops_cases path
+  | _ :: "hist" :: path :: _ -> hist_cases path
   | _ -> prerr_endline "usage: driver <command> <file>"; exit 2
